@@ -17,14 +17,17 @@ CHECKS = {
               "shape: the frozen form set and the three sibling mnemonic tables; a success path for every shape the decoder can produce; "
               "operand/implicit-register write sets, accessor widths and fixed registers against iced-x86's tables; CMOVcc/SETcc under all "
               "64 flag classes; immediate table of the operand builder; shifted amount for all 256 counts; zero/sign extension by bit "
-              "provenance. Not decided: the arithmetic inside the result closures."),
-        technique=AI + "; oracle: iced-x86 static tables; exhaustive finite classes (64 flag classes, 256 shift counts)"),
+              "provenance; the low four result bits of 278 ring-operation forms for all operand values (congruence abstraction, 256 "
+              "residue pairs each). Not decided: carries and the upper result bits inside the result closures."),
+        technique=AI + "; congruence abstraction mod 2^4; oracle: iced-x86 static tables; exhaustive finite classes (64 flag classes, 256 shift counts)"),
     "C02": dict(category="other", design_ref="§5 C02",
         text=("Per implemented form and flag: definitely written / constant / untouched exactly as iced-x86's rflags tables say, joined "
               "over all success paths; the flag setters' transfer functions are derived from their own MIR for every mask pair in use; "
               "rflags bits a handler depends on are within rflags_read; all 256 shift counts are evaluated for flag neutrality of a "
-              "masked-zero count. Not decided: the values of CF/OF computed in closures."),
-        technique=AI + " composed with flag-setter summaries; oracle: iced-x86 rflags tables"),
+              "masked-zero count; ZF/SF/PF of every setter for all 256 result bytes x upper-bit classes; the value handed to the setter is "
+              "the value written (CMP/TEST: congruent to d-s / d&s); MUL/IMUL CF=OF per class of the 2N-bit product (all-equal top bits "
+              "and every single-bit deviation). Not decided: CF/OF/AF values of additions and subtractions."),
+        technique=AI + " composed with flag-setter summaries; per-class evaluation of the handlers' product tests; oracle: iced-x86 rflags tables"),
     "C03": dict(category="other", design_ref="§5 C03",
         text=("Every implemented, decoder-producible Jcc handler is interpreted under all 64 CF/PF/AF/ZF/SF/OF classes and must store "
               "RIP exactly under the architectural condition; JRCXZ/JECXZ guards; provenance of the value stored to RIP; emptiness of "
@@ -43,11 +46,12 @@ CHECKS = {
               "builder copies iced's fields one for one (incl. RIP/EIP -> no base); LEA writes the truncated address and ignores segment bases."),
         technique=AI + " with term normalisation of wrapping sums; per-register-class enumeration"),
     "C06": dict(category="other", design_ref="§5 C06",
-        text=("Guard structure of each fault class: zero-divisor test before every Div/Rem; a quotient range test that can fail before "
-              "narrowing; every failing guest memory access makes the handler return that error (all handlers x shapes); alignment test "
-              "for alignment-checking 16-byte operands; no abort for any decoder-producible shape, any value-dependent assertion in a "
+        text=("Per fault class: zero-divisor test before every Div/Rem; DIV/IDIV interpreted per class of the quotient (fits / too large / "
+              "below, boundary points and halves; high half vs divisor for DIV): a fitting class has a success path, a non-fitting one "
+              "none; every failing guest memory access makes the handler return that error (all handlers x shapes); alignment-checking "
+              "16-byte operands interpreted for all 16 residues of the address; no abort for any decoder-producible shape, any value-dependent assertion in a "
               "result closure, or any of the 256 shift counts. Not decided: whether a given dividend/address faults."),
-        technique=AI + " with fault-forking accessor summaries; exhaustive shift-count sweep"),
+        technique=AI + " with fault-forking accessor summaries and a comparison oracle per quotient / residue class; exhaustive shift-count sweep"),
     "C07": dict(category="proof", design_ref="§5 C07",
         text=("For each of the 8 GPR accessors and each of the 68 register views (+RIP) the stored / returned word is computed as a bit "
               "provenance vector over (old parent value, argument) and must equal the architectural vector; the range guard precedes the "
@@ -58,8 +62,9 @@ CHECKS = {
     "C08": dict(category="other", design_ref="§5 C08",
         text=("Order-type enumeration (all weak orderings of address, address+len, area.start, area.end) shows the raw accessors touch "
               "area bytes only inside the area and serve every in-range request; no error exit after the first store; typed accessors "
-              "agree on byte count, little-endian conversion and address; no unguarded overflow-checked arithmetic on API parameters or "
-              "area fields (with the area-end invariant proven at both lifecycle functions); length == data.len() at every construction."),
+              "agree with the byte store by bit provenance over byte tuples (byte i = bits 8i..8i+7, count N/8, caller's address); no unguarded overflow-checked arithmetic on API parameters or "
+              "area fields (with the area-end invariant proven at both lifecycle functions); length == data.len() at every construction "
+              "and on the final values of every successful resize."),
         technique="order-type enumeration (A7) + abstract interpretation of MIR + overflow-site triage (A9)"),
     "C09": dict(category="proof", design_ref="§5 C09",
         text=("3 raw accessors x 8 permission masks: area bytes are touched iff the mask has READ/WRITE/EXEC (exhaustive); a denied "
@@ -71,9 +76,10 @@ CHECKS = {
     "C10": dict(category="other", design_ref="§5 C10",
         text=("Order-type enumeration over (new.start, new.end, old.start, old.end): creation passes only disjoint requests, resize "
               "passes exactly the disjoint ones and never rejects the area itself; only lifecycle functions mutate the area list; the "
-              "retry loops have a strictly progressing variant; resize keeps the common prefix in a zero vector; 'anywhere' allocators "
+              "retry loops have a strictly progressing variant; per size class (new <, =, > old) a successful resize changes exactly one "
+              "area to old[..min] ++ zeros with length = requested size, a refused resize changes nothing; 'anywhere' allocators "
               "return the start they created."),
-        technique="order-type enumeration (A7) over MIR interpretation; loop-variant recognition (A12); who-may-write (A1)"),
+        technique="order-type enumeration (A7) over MIR interpretation; byte-sequence normal forms for the resize; loop-variant argument on paths (A12); who-may-write (A1)"),
     "C11": dict(category="other", design_ref="§5 C11",
         text=("The step coroutine is interpreted with decode/dispatch/hooks as primitives (all paths): finished/limit guards precede any "
               "effect, proceed <=> count < limit (3 orderings), exactly one count increment after dispatch on continuing paths, "
@@ -84,35 +90,41 @@ CHECKS = {
     "C12": dict(category="other", design_ref="§5 C12",
         text=("On every path of step with hooks: before-runner completes before dispatch, after-runner after it, each started once, "
               "looked up with the decoded mnemonic; hook errors fail the step; the registration API's vector is the one the runner "
-              "iterates for that phase; the runner leaves hooks.running false on every exit; registration is refused while running. "
+              "iterates for that phase; per class of the hook result {Handled, Unhandled, Err} x {finished or not} the chain ends or goes "
+              "on as specified; the runner leaves hooks.running false on every exit; registration is refused while running. "
               "wasm32-only JS hooks are not analysed."),
         technique="abstract interpretation of the step and hook-runner coroutine MIR; typestate on hooks.running"),
     "C13": dict(category="other", design_ref="§5 C13",
-        text=("The brk hook closure is interpreted: acts only for RAX == 12; brk(0) returns base+length; brk(p) resizes (base, p-base), "
-              "returns p (affine equality), updates the length only after a successful resize; p below the base changes nothing; first "
-              "use allocates through the non-overlapping allocator; the resize primitive accepts growth of the heap area (A7). "
+        text=("The brk hook closure (found by the syscall number it selects) is interpreted for the 8 classes {first use, heap exists} x "
+              "{p=0, 0<p<base, p=base, p>base} with a comparison oracle: acts only for RAX == 12; p=0 returns base+length without "
+              "resizing; p>=base resizes (base, p-base) exactly once, returns p (affine equality), updates the length only after a "
+              "successful resize; first use allocates through the non-overlapping allocator; the resize primitive accepts growth of the heap area (A7). "
               "Not decided: heap contents over histories."),
-        technique=AI + " of the hook closure + affine normal form; shares C10's order enumeration"),
+        technique=AI + " of the hook closure per order class (comparison oracle) + affine normal form; shares C10's order enumeration"),
     "C14": dict(category="other", design_ref="§5 C14",
-        text=("Three necessary conditions of FIFO conservation, decided on the three pipe closures: key agreement between pipe(), "
-              "read and write; read delivers buf[..m] and keeps buf[m..] for the same m = min(count, len) and returns m, write appends "
-              "exactly the bytes read and returns count; other syscalls / unknown descriptors are left Unhandled with nothing touched. "
-              "FIFO order over arbitrary interleavings as such is declined."),
-        technique=AI + " of the hook closures with term identity of keys and split points"),
+        text=("The per-call transfer functions of the three pipe closures, decided over an abstract model of the descriptor maps and of "
+              "byte vectors (segment normal forms): read (per class count <, =, > available) delivers B[..m], leaves B[m..] under the "
+              "same key and returns m; write leaves B ++ guest bytes (or the guest bytes) under write_ends[fd] and returns count; "
+              "pipe() creates inverse end entries, an empty buffer and hands [R, W] to the guest; other syscalls / descriptors are left "
+              "Unhandled with nothing touched. FIFO order over interleavings follows by induction, which is not mechanised."),
+        technique=AI + " of the hook closures over abstract maps and byte-sequence normal forms, with a comparison oracle per count class"),
     "C15": dict(category="other", design_ref="§5 C15",
         text=("from_binary is interpreted with the elf crate and the memory API as primitives: RIP := e_entry; PT_LOAD areas at p_vaddr "
-              "hold segment_data(segment) (zero area of rounded p_memsz + [..p_filesz] copy otherwise); mem_prot(p_vaddr, permutation of "
-              "p_flags) per flag class; symbols keyed by st_value, named by strtab.get(st_name), undefined skipped. "
+              "hold, as a byte-sequence expression, segment_data(segment) over a zero base sized from p_memsz only (or the file bytes "
+              "alone when the rounded p_memsz is tied to p_filesz); the rounded size lies in [p_memsz, next page] for all 4096 residues; "
+              "mem_prot(p_vaddr, permutation of p_flags) per flag class; symbols keyed by st_value, named by strtab.get(st_name), undefined skipped. "
               "Byte equality of the image for all files is declined."),
         technique=AI + " of the loader with header fields as symbolic leaves"),
     "C16": dict(category="other", design_ref="§5 C16",
         text=("Crash/allocation surface of the loader over all its paths: no class-X abort; no unguarded overflow-checked arithmetic on "
-              "a header field; every header-derived allocation size is dominated by a bounding comparison; only iterator loops. "
+              "a header field; every slice / copy bound is tied to the length it indexes on the path; every header-derived allocation "
+              "size is dominated by a bounding comparison; only iterator loops. "
               "Assumes the elf crate's parsers return errors rather than panic."),
         technique=AI + " with header-field taint + overflow-site triage (A9) + loop classification (A12)"),
     "C17": dict(category="other", design_ref="§5 C17",
         text=("Layout order argc, argv*, 0, envp*, 0; NUL-terminated copies through the allocator; alignment test before the RSP "
-              "store; slot convention and space below RSP by affine comparison (two known findings inherited from C04). "
+              "store; slot convention and space below RSP by affine comparison (two known findings inherited from C04); an occupied "
+              "candidate address never aborts the initialisation. "
               "Success for every list length is declined."),
         technique=AI + " with precise loop unrolling before widening + affine normal form"),
     "C18": dict(category="other", design_ref="§5 C18",
@@ -126,7 +138,8 @@ CHECKS = {
               "rejection / debug assertion / overflow check / crash); path analyses of every handler x shape, the 256 shift counts, "
               "the address computation for every base/index register, the memory accessors, the decoder front end, the trace "
               "recorder, the renderers and the built-in syscall hooks must report no evidently failing site outside the known "
-              "findings; debug assertions agree with dispatch; no free loop without a variant. Host stack/allocation failure is declined."),
+              "findings; every slice/index/copy site of the cone is inside a bounds-analysed accessor or has its bound tied to the "
+              "indexed length on every path; debug assertions agree with dispatch; no free loop without a variant. Host stack/allocation failure is declined."),
         technique="panic-site inventory over the call-graph cone (A1/A9) + the path analyses of C01/C05/C06/C08/C18 re-run for crashes"),
     "C20": dict(category="other", design_ref="§5 C20",
         text=("No nondeterminism source other than the documented ones can reach state, traces or error texts: callers of rand are "
